@@ -22,7 +22,7 @@ theorem inv_job_mkJournal {cfg : Cfg} {s : St} {d : Disk} (h : Inv cfg s d) {j :
     have hk : j.kind = .recovFinal := by
       have hkind := hok.kind
       unfold JobKindOK at hkind
-      rcases hok.kinds with hk | hk | hk <;> rw [hk] at hkind <;> simp only at hkind
+      rcases hok.kinds with hk | hk | hk | hk | hk <;> rw [hk] at hkind <;> simp only at hkind
       · obtain ⟨_, hkind⟩ := hkind
         split at hkind
         · rw [hkind.2.2.2.2.1] at hn; cases hn
@@ -30,6 +30,8 @@ theorem inv_job_mkJournal {cfg : Cfg} {s : St} {d : Disk} (h : Inv cfg s d) {j :
         · exact absurd hkind id
       · rw [hkind.2.1] at hn; cases hn
       · exact hk
+      · rw [hkind.2.1] at hn; cases hn
+      · rw [hkind.2.1] at hn; cases hn
     have hkind := hok.kind
     unfold JobKindOK at hkind
     rw [hk] at hkind
@@ -58,7 +60,7 @@ theorem inv_job_mkJournal {cfg : Cfg} {s : St} {d : Disk} (h : Inv cfg s d) {j :
     · exact h.disk.journal_create n hall
     · exact h.mm.of_same rfl rfl
     · intro _
-      exact hb.of_same rfl (Nat.le_refl _) (Nat.le_refl _) (fun hr' => by
+      exact hb.of_same rfl (h.seqHi_step hj rfl rfl rfl rfl (fun _ => by rw [hpc]; rfl)) (Nat.le_refl _) (fun hr' => by
         have : s.phase = .running := hr'
         rw [hph] at this; cases this)
     · intro hc
@@ -108,17 +110,21 @@ theorem inv_job_mkJournal {cfg : Cfg} {s : St} {d : Disk} (h : Inv cfg s d) {j :
       have : s.phase = .crashed := hcr
       rw [hph] at this; cases this
     · show JobOK cfg _ d1 j'
-      obtain ⟨h1, h2, h3, h4, h5, h6, h7, h8, h9, h10⟩ := hok
-      refine ⟨h1, ?_, ?_, ⟨h4.1, fun _ => h4.2 (by rw [hpc]; rfl)⟩, h5, ?_, trivial, ?_, ?_, fun hx => by
+      obtain ⟨h1, h2, h3, h4, h5, h6, h7, h8, h9, h10, h11, h12⟩ := hok
+      refine ⟨h1, ?_, ?_, ⟨h4.1, fun _ => h4.2 (by rw [hpc]; rfl)⟩, h5, ?_, trivial, ?_, ?_, (fun hx => by
         have : j.edit = none := hx
-        rw [he] at this; cases this⟩
+        rw [he] at this; cases this), ?_, (fun hx => by cases hx)⟩
+      rotate_right
+      · exact Holds'.imp (o := j.edit) h11 (fun e0 he0 => he0.transport (j' := j') rfl rfl (fun _ => rfl)
+          (fun _ => by rw [hpc]; rfl) (fun _ => rfl) (fun _ _ _ => rfl))
       · show JobKindOK _ j'
         unfold JobKindOK
         show match j.kind with
           | .flush => _
           | .recovMid => _
           | .recovFinal => _
-          | _ => False
+          | .compaction => _
+          | .tr => _
         rw [hk]
         simp only
         exact ⟨hph, hkind⟩
@@ -161,12 +167,13 @@ theorem inv_job_step {cfg : Cfg} (hg : cfg.Good) {s : St} {d : Disk} (h : Inv cf
   | tSync i => exact inv_job_tSync h hj hpc hs
   | mkJournal => exact inv_job_mkJournal h hj hpc hs
   | append =>
-    by_cases hr : rot = true ∨ s.manifestOpen = false
+    by_cases hr : rot = true ∨ s.manifestOpen = false ∨ s.manifestFailed = true
     · exact inv_job_append_rotate h hj hpc hr hs
     · have h1 : rot = false := by cases rot <;> simp_all
       have h2 : s.manifestOpen = true := by cases hm : s.manifestOpen <;> simp_all
+      have h3 : s.manifestFailed = false := by cases hm : s.manifestFailed <;> simp_all
       subst h1
-      exact inv_job_append_normal hg h hj hpc h2 hs
+      exact inv_job_append_normal hg h hj hpc h2 h3 hs
   | earlyRm =>
     exfalso
     have hok := h.job
